@@ -64,7 +64,8 @@ public:
   constexpr GasConstant(const HeatCapacityRatio<NumericType>& heat_capacity_ratio,
                         const IsobaricHeatCapacity<NumericType>& isobaric_heat_capacity)
     : GasConstant<NumericType>(
-          (1.0 - 1.0 / heat_capacity_ratio.Value()) * isobaric_heat_capacity.Value()) {}
+          (heat_capacity_ratio.Value() - 1.0) * isobaric_heat_capacity.Value()
+          / heat_capacity_ratio.Value()) {}
 
   /// \brief Constructor. Constructs a gas constant from a given isochoric heat capacity and heat
   /// capacity ratio using the definition of the heat capacity ratio and Mayer's relation.
